@@ -41,6 +41,7 @@ def cases(draw):
     sched = draw(conc.schedules(300))
     return {"role": draw(st.sampled_from(["client", "server"])), "msgs": msgs, "seg": seg, "cuts": sorted(set(cuts)),
             "hp": hp, "consumers": draw(st.sampled_from([1, 1, 1, 2])), "sched": sched, "lines": draw(st.booleans()) if sched else False,
+            "gen2": draw(st.sampled_from([None, None, None, "local-close", "peer-fin", "peer-fin-mid-message"])),
             "consumers_first": draw(st.booleans()), "holds": draw(conc.holds())}
 
 
@@ -97,6 +98,8 @@ def run_one(case):
     with World(role=case["role"], apps=["s6a"], line_preempt=case["lines"], line_holds=conc.wants_line_holds(case.get("holds"))) as w:
         if not w.open_connection():
             return [V("harness: connection setup failed", "harness/setup", w.state())], info
+        if case.get("gen2") and not w.second_generation(case["gen2"]):
+            return [V("the same node object can be started again", f"second-connection-failed/{case['gen2']}", w.state())], info
 
         def consumer(idx):
             def loop():
@@ -195,6 +198,8 @@ def _collect(shard, seed, n):
             f.add("targeted-delay")
             if conc.wants_line_holds(case.get("holds")):
                 f.add("delay-between-source-lines")
+        if case.get("gen2"):
+            f.add("second-connection-of-the-object")
         nt = bool(f & {"message-spans-reads", "messages-share-a-read"}) and "prefix-with-switch" in f
         col.record(case, vs, nontrivial=nt, classes=sorted(f))
         col.extra["scheduling_steps"] = col.extra.get("scheduling_steps", 0) + info.get("steps", 0)
